@@ -12,42 +12,811 @@ Definition show_fres (r : fres) : string :=
   end.
 Definition check (rs : list rune) : string := digest (show_fres (format_res rs)).
 Definition full (rs : list rune) : string := show_fres (format_res rs).
-Eval vm_compute in ("<<<M17>>>" ++ full (runes_of_ascii "
+Eval vm_compute in ("<<<M1>>>" ++ full (runes_of_ascii "root packet
+    len { match x as metadata// " ++ [27880; 37322]%N ++ runes_of_ascii "
+{ [
+    1
+// packet A { u8 x, }
+//x
+,
+    0 ,	"""" , ""a	b"",00 ]
+    :	pack , [""// no comment"" , ""x y""
+, """ ++ [233]%N ++ runes_of_ascii "t" ++ [233]%N ++ runes_of_ascii """ ]:	Packet //
+,	} , repeat lengthOf u128, @calculatedFrom(
+    // " ++ [128512]%N ++ runes_of_ascii " emoji
+    ""it's""
+) @lengthOf( calculatedFrom
+// trailing space 
+// 50% %s
+) @lengthOf( u )	metadata
+{ int8 lengthOf
+    `crlf
+line` ,} ,
+@tag(// trailing space 
+4294967296 ) calculatedFrom {f32 i64_ // packet A { u8 x, }
+`" ++ [233]%N ++ runes_of_ascii "`,} ,@lengthOf(
+BodyLength  )	repeat//x
+char[65535 ] float
+// `tick` ""quote"" 'q'
+// c
+,@calculatedFrom(
+""\" ++ [233]%N ++ runes_of_ascii """) i64_ { match
+stringy as
+    _x{ //	t
+[ 4294967296 ,
+    3 ]
+:	i8i8
+, [ ""a\""b"" ]: x_y_z ,
+    3:len , }
+    , }  , @tag( // trailing space 
+0)
+zchar[
+    7
+] x_y_z ,@lengthOf( Header )
+repeat
+// 50% %s
+/// triple
+u64 As `
+` ,// " ++ [27880; 37322]%N ++ runes_of_ascii "
+@rightPad
+    ( ) /// triple
+@rightPad (  '\x00') u16
+Header	`{ , }` , }
 ")).
-Eval vm_compute in ("<<<M39>>>" ++ full (runes_of_ascii "
+Eval vm_compute in ("<<<M7>>>" ++ full (runes_of_ascii "options// @lengthOf(
+{
+    rootA=	""x y"";
+trueish// a // b
+=
+    0 Header =""1"" }
+    root packet packetx{ u32 uint8x ,
+u A ,// " ++ [128512]%N ++ runes_of_ascii " emoji
+i16 body @lengthOf(A )
+,
+@lengthOf(
+    u8x
+    // 50% %s
+    )
+    u8x @calculatedFrom( /// triple
+""abc"" ) ,  @tag(
+    42
+)match	float as a1	{ [ """" ] : pack ,""""
+: leftPad ,7
+:f32a , 3
+:
+    i8i8
+, 255
+: string_	, } // c
+, metadata``	, /// triple
+uint8 rootA// packet A { u8 x, }
+, }// trailing space 
+packet zchar { // c
+@calculatedFrom( ""it's"") uint64
+//	t
+// packet A { u8 x, }
+int
+, char
+int ,i16 float // @lengthOf(
+, asx	, // c
+char[	7] Packet
+    @lengthOf( body)
+    `" ++ [28040; 24687; 31867; 22411]%N ++ runes_of_ascii "`
+, } packet stringy
+// " ++ [128512]%N ++ runes_of_ascii " emoji
+//	t
+{
+//x
+//	t
+@calculatedFrom(""abc"" ) zchar[
+65535 /// triple
+] Packet ,// @lengthOf(
+@tag(42 // " ++ [27880; 37322]%N ++ runes_of_ascii "
+)
+    // `tick` ""quote"" 'q'
+    @leftPad()
+    char[]
+falsey ,i8i8
+x `" ++ [28040; 24687; 31867; 22411]%N ++ runes_of_ascii "`,@tag(
+255 ) u128
+    {
+    f32 //
+uint8x
+`u8 x,`, o @calculatedFrom( ""a\""b"")
+// 50% %s
+//x
+, char[] charz `
+` , }, @calculatedFrom(
+""1"" )
+    repeat i8i8 { zchar[0 ] int , } , @tag( 007 )repeat i64
+Logon
+`
+` , repeat
+    char[ 0 ] matchKey `crlf
+line` ,@calculatedFrom(  ""a\\"") @tag(
+    42
+)	@leftPad // 50% %s
+(
+'0'  ) match o as
+x_y_z
+    // " ++ [27880; 37322]%N ++ runes_of_ascii "
+    { [ // `tick` ""quote"" 'q'
+""" ++ [128512]%N ++ runes_of_ascii """ , ""x y"" , 0123456789 , ""CRC32""// c
+,""it's"",
+    //
+    007
+,
+3 ,
+007 // " ++ [27880; 37322]%N ++ runes_of_ascii "
+]
+:Packet [
+    255 ,  ""x y""	]: x_y_z ,} ,}
+//	t
 ")).
-Eval vm_compute in ("<<<M115>>>" ++ full (runes_of_ascii "
-
-")).
-Eval vm_compute in ("<<<M159>>>" ++ full (runes_of_ascii "  
-")).
-Eval vm_compute in ("<<<M160>>>" ++ full (@nil rune)).
-Eval vm_compute in ("<<<M170>>>" ++ full (runes_of_ascii " 	 ")).
-Eval vm_compute in ("<<<M240>>>" ++ full (runes_of_ascii "/// triple
-
-")).
-Eval vm_compute in ("<<<M289>>>" ++ full (runes_of_ascii "// `tick` ""quote"" 'q'
-
-")).
-Eval vm_compute in ("<<<M310>>>" ++ full (runes_of_ascii "
+Eval vm_compute in ("<<<M9>>>" ++ full (runes_of_ascii "packet roots { u16 packetx`say ""hi""` ,  @tag( 00 )string trueish ,
+// 50% %s
+// @lengthOf(
+}	packet falsey {match o
+as zchar {
+[7
+,
+    // a // b
+    """ ++ [233]%N ++ runes_of_ascii "t" ++ [233]%N ++ runes_of_ascii """ ]:leftPad ,
+    ""a	b"" : f32a ,
+[""`tick`""
+, 10
+    /// triple
+    ,
+// @lengthOf(
+// `tick` ""quote"" 'q'
+4294967296, 255 ,
+10
+, ""{,}""
+// a // b
 //
+, """"
+    ]
+    : // a // b
+i64_
+, 00 : len , [ 10,
+    0,0123456789//x
+]
+:float }, repeat // 50% %s
+char[] BodyLength ,
+    @rightPad (
+    '0'
+    ) @calculatedFrom( // trailing space 
+""a	b""
+)match Foo as chars {	""" ++ [28040; 24687]%N ++ runes_of_ascii """ : asx, ""packet""	: _x , },} root /// triple
+packet x
+    { @calculatedFrom( """ ++ [233]%N ++ runes_of_ascii "t" ++ [233]%N ++ runes_of_ascii """
+)// c
+uint16 calculatedFrom , asx rootA `{ , }` , @calculatedFrom(	""" ++ [28040; 24687]%N ++ runes_of_ascii """ )	x A ,@lengthOf( u8x) @calculatedFrom(
+""1"" ) @lengthOf(
+    //x
+    uint8x )
+    zchar[ 65535]lengthOf
+`tab	here`,}")).
+Eval vm_compute in ("<<<M11>>>" ++ full (runes_of_ascii "root packet repeatCount
+    {repeat tag As  , Logon @calculatedFrom(
+""it's"" )
+, @calculatedFrom( ""`tick`""
+) string uint8x , repeat /// triple
+Pad u8x `line1
+line2`
+,@leftPad( )char[
+    007
+    ] string_
+    , @lengthOf(Packet ) repeat
+    int8 Header `it's`,
+    // `tick` ""quote"" 'q'
+    } root packet pack{
+    uint64  Packet @calculatedFrom(	""\n""
+    )
+, }
+    options {	pack	=
+    ""// no comment"" //x
+;
+body // " ++ [128512]%N ++ runes_of_ascii " emoji
+= ""a	b""
+;} // trailing space 
+packet Logon// trailing space 
+{ u8x{
+    // 50% %s
+    trueish
+@lengthOf(tag) `two words` , match body
+    // trailing space 
+    as
+int  {// trailing space 
+0 :i8i8 } ,
+    repeat uint8x o
+, } //	t
+,
+@tag(65535)
+int16 falsey, zchar[ 10] float `100% of %d`
+    , repeat
+    // packet A { u8 x, }
+    calculatedFrom
+`a\` , zchar[ 10]	crc
+@lengthOf(
+    repeatCount
+)
+`" ++ [28040; 24687; 31867; 22411]%N ++ runes_of_ascii "` , // `tick` ""quote"" 'q'
+match
+// trailing space 
+// " ++ [128512]%N ++ runes_of_ascii " emoji
+rootA as repeatCount  {
+3: crc
+""CRC32""
+    : //x
+x
+    //x
+    , 007
+    :A 7: chars
+    ,	[
+    007 ]: x ,  [
+    //x
+    007// " ++ [27880; 37322]%N ++ runes_of_ascii "
+, 255  ,""" ++ [28040; 24687]%N ++ runes_of_ascii """ , 42 ]: Z9_
+    , } ,  @tag(
+007//	t
+)
+repeat string len , int	, Foo  {
+match
+roots
+as
+    _x
+    { ""// no comment"" : o, [ 4294967296, """ ++ [233]%N ++ runes_of_ascii "t" ++ [233]%N ++ runes_of_ascii """ , 4294967296 , 7  , ""packet""
+,
+    3
+] : string_ ,""x y""// " ++ [27880; 37322]%N ++ runes_of_ascii "
+:float [ ""a\""b"" //x
+,
+""1""
+] // packet A { u8 x, }
+: zchar  ,}
+    , rootA { repeat metadata{ repeat
+char[
+    1 ] i64_
+`100% of %d`, match matchKey as stringy{ [ ""`tick`"" ] :x ,
+[
+    3 , 65535 ,255 ,  ""a\\"",""a\\"" , ""x y"" //x
+] : _x,} , }
+, }	,
+repeat char stringy ,
+    A `crlf
+line`
+, //	t
+}, @leftPad ( ) Header{	i32 asx @lengthOf(
+    lengthOf
+)
+,
+} , }
 ")).
-Eval vm_compute in ("<<<M331>>>" ++ full (runes_of_ascii "
- // `tick` ""quote"" 'q'")).
-Eval vm_compute in ("<<<M367>>>" ++ full (runes_of_ascii "
- // @lengthOf(")).
-Eval vm_compute in ("<<<M723>>>" ++ full (runes_of_ascii " ")).
-Eval vm_compute in ("<<<M724>>>" ++ full (runes_of_ascii "
-	 ")).
-Eval vm_compute in ("<<<M725>>>" ++ full (runes_of_ascii "")).
-Eval vm_compute in ("<<<M726>>>" ++ full (runes_of_ascii "		")).
-Eval vm_compute in ("<<<M727>>>" ++ full (runes_of_ascii "// only a comment")).
-Eval vm_compute in ("<<<M728>>>" ++ full (runes_of_ascii "//")).
-Eval vm_compute in ("<<<M730>>>" ++ full (runes_of_ascii "// a
-// b
+Eval vm_compute in ("<<<M13>>>" ++ full (runes_of_ascii "MetaData u128 {} MetaData a1 {}// " ++ [128512]%N ++ runes_of_ascii " emoji
+root packet o
+{
+char[ 10 ] stringy@lengthOf(
+/// triple
+// 50% %s
+Z9_ //	t
+) ,
+    match x_y_z as	stringy { 3 : float ,	} , @leftPad	(
+' ' )u128 {
+    repeat i32
+msg_type `it's` , x ,
+repeat char[ //
+65535 ] T
+, match  A as i8i8 { """ ++ [128512]%N ++ runes_of_ascii """ : Logon , },} , }MetaData x_y_z { // @lengthOf(
+options1 a1 , u8x  x_y_z
+`tab	here` ,	char MetaDataX , // " ++ [27880; 37322]%N ++ runes_of_ascii "
+zchar[ 65535
+    ] chars
+    , char[]
+crc`doc`	, }")).
+Eval vm_compute in ("<<<M14>>>" ++ full (runes_of_ascii "
+packet Pad { @calculatedFrom( ""x y"") repeat f64 x
+`tab	here`, @rightPad
+    ( ) char[]
+float@calculatedFrom(
+""" ++ [233]%N ++ runes_of_ascii "t" ++ [233]%N ++ runes_of_ascii """ ) ,match uint8x as
+falsey//x
+{ ""CRC32""
+:
+    leftPad } ,@tag(
+    //	t
+    10 )
+    repeat Pad {
+    // " ++ [128512]%N ++ runes_of_ascii " emoji
+    zchar[42 ] uint8x@lengthOf( o)
+,
+// `tick` ""quote"" 'q'
+//x
+i16 x_y_z , stringy
+    @calculatedFrom(
+""`tick`""
+) `a\` ,}, Header// c
+repeatCount ,
+i64_	, @lengthOf( //x
+uint8x
+    ) match options1 as BodyLength
+{ 0
+    :
+    chars //x
+, 255: BodyLength 0123456789
+    :Foo
+    , [ 65535
+    , 42 , 42 ,
+    65535 ,
+255// " ++ [27880; 37322]%N ++ runes_of_ascii "
+, 1
+    // @lengthOf(
+    , ""1"",
+""\n""] : pack
+} , repeat
+    i8i8 msg_type , @lengthOf(f32a	) // @lengthOf(
+T BodyLength
+, }
 ")).
-Eval vm_compute in ("<<<M731>>>" ++ full (runes_of_ascii "
+Eval vm_compute in ("<<<M16>>>" ++ full (runes_of_ascii "packet pack {@rightPad (
+    '\x00' )	options1  ,repeat
+f32
+    Packet`u8 x,`
+, repeat  Logon { repeat
+    a1 {char[  0 ]
+    tag
+,
+u64 leftPad,
+    } // 50% %s
+, repeatCount ,repeat // packet A { u8 x, }
+BodyLength /// triple
+, }
+    , repeat char[] packetx,
+char[
+00]tag@lengthOf(o
+) , }packet matchKey { repeat As	u8x `it's` , }options{}MetaData
+string_
+{ msg_type
+    Z9_ `line1
+line2` ,} //x")).
+Eval vm_compute in ("<<<M23>>>" ++ full (runes_of_ascii "root packet
+u128 { @lengthOf(
+    A// " ++ [27880; 37322]%N ++ runes_of_ascii "
+)pack@calculatedFrom( ""`tick`"" ),
+repeat
+    char[]	As `crlf
+line`
+    // " ++ [27880; 37322]%N ++ runes_of_ascii "
+    , @tag( 4294967296 ) @rightPad
+('\x00'	) @calculatedFrom( ""a\\"" ) tag { repeat string o
+    ,char[]  calculatedFrom `u8 x,`
+,
+u
+    // " ++ [128512]%N ++ runes_of_ascii " emoji
+    { u64
+    body
+    `say ""hi""`
+    ,	repeat f32
+    int ,repeat rootA { repeat string i64_ `it's`
+    //	t
+    ,As
+    @calculatedFrom(
+"""" ) `" ++ [233]%N ++ runes_of_ascii "`
+    ,tag `" ++ [233]%N ++ runes_of_ascii "`, } , zchar[ 65535 ] trueish
+    , } ,}	, @lengthOf( Logon )i8// @lengthOf(
+Packet , @tag(
+3 ) @lengthOf( chars ) @tag( 10 ) u8
+    Foo ,
+    // " ++ [128512]%N ++ runes_of_ascii " emoji
+    i64_
+    _x`crlf
+line`,
+    u32
+    A , match a1 as i8i8 { [""1"" ,4294967296
+]  :
+a1, """" :a1	, 007
+: a1, [ ""CRC32""
+]
+: Header
+    }
+    , int64
+As , } root	packet
+chars { x_y_z {
+    // a // b
+    u32 u128 ,
+float64 metadata
+    , trueish
+    @calculatedFrom(""it's"" ) `u8 x,`,
+    } , @calculatedFrom( ""\n"" )
+repeat
+    // c
+    Foo
+pack, string
+    asx
+@lengthOf( x_y_z ) `a\` ,
+    uint8 // `tick` ""quote"" 'q'
+trueish @calculatedFrom( ""a\""b""
+)  , @leftPad
+( ) char[
+007 ] a1
+    @lengthOf(
+a1)
+    `crlf
+line`
+,rootA msg_type, zchar[ 1
+]  u8x @calculatedFrom( ""`tick`""
+) , }
+    options
+{ } packet crc {// a // b
+@lengthOf(leftPad ) @tag( 7
+    )//	t
+@lengthOf(
+options1  )
+int32 asx , @rightPad
+( )
+pack roots , string
+a1
+    `say ""hi""` , match body
+    // packet A { u8 x, }
+    as matchKey
+    {[
+""`tick`""
+    // @lengthOf(
+    ]:	string_
+    },
+    //	t
+    repeat uint16 Packet , repeat uint8 i64_ , @lengthOf( Pad	) /// triple
+A // trailing space 
+`// not a comment` ,
+char[]u8x
+    , repeat
+    char[ 007 ] pack	, A
+    { // " ++ [27880; 37322]%N ++ runes_of_ascii "
+x { string
+    uint8x @lengthOf( leftPad  )`say ""hi""` // packet A { u8 x, }
+,Packet T
+// `tick` ""quote"" 'q'
+// c
+, As @lengthOf(
+// " ++ [27880; 37322]%N ++ runes_of_ascii "
+// c
+string_ ) `// not a comment` , }, char[] _x@lengthOf(
+o )
+    // 50% %s
+    ,
+    len x , },
+    //
+    }
+")).
+Eval vm_compute in ("<<<M24>>>" ++ full (runes_of_ascii "packet float
+// trailing space 
+// c
+{ @leftPad (' ')repeat char[] MetaDataX , @leftPad (
+)
+    i16 x_y_z @calculatedFrom( ""CRC32""
+)
+, }packet chars {
+    } packet asx
+{
+@tag( 255)
+@tag( 4294967296 ) @calculatedFrom(
+""{,}""
+    // c
+    )
+matchKey /// triple
+o `
+` ,}
+")).
+Eval vm_compute in ("<<<M28>>>" ++ full (runes_of_ascii "options {
+Foo =
+true ; len = '\x00'
+asx =
+'0' ; asx = // packet A { u8 x, }
+3 ;
+// " ++ [128512]%N ++ runes_of_ascii " emoji
+//
+} //	t
+packet	u128{
+    uint8 crc `doc`,
+    Z9_ ,repeat
+i8 roots,	@lengthOf( crc) repeat As `two words` , zchar[	007 ]
+    //x
+    tag `// not a comment` ,} packet pack// c
+{ string msg_type ,@calculatedFrom(	""""	)
+    repeat string
+tag`u8 x,`
+    ,int16 leftPad ,
+@tag(1
+    // " ++ [27880; 37322]%N ++ runes_of_ascii "
+    ) crc ,}
+/// triple
+// a // b
+root packet packetx {
+@rightPad
+(	'0'	) float64 o
+    // a // b
+    `two words`
+,
+repeat //	t
+string_
+    crc , i64
+    As`line1
+line2` ,@lengthOf( rootA //
+)
+u32
+Logon @lengthOf(a1
+) , @calculatedFrom(""""
+    ) @leftPad
+//x
+// @lengthOf(
+(' '
+) uint16 i8i8
+@calculatedFrom( ""// no comment"") , repeat char[]a1
+, u128 {
+// packet A { u8 x, }
+// trailing space 
+falsey @lengthOf( pack ) , int16
+packetx ,
+i64_ @calculatedFrom(""\" ++ [233]%N ++ runes_of_ascii """
+    ) `{ , }`
+    // " ++ [27880; 37322]%N ++ runes_of_ascii "
+    , int64 i8i8 `a\`,
+    }
+, }")).
+Eval vm_compute in ("<<<M35>>>" ++ full (runes_of_ascii "options {  stringy =
+// packet A { u8 x, }
+// a // b
+true
+;
+    x_y_z
+=
+    false x ='\x00' //x
+;
+matchKey  =
+    i64
+; // c
+}root packet o {@lengthOf( float ) int32 As
+,
+}
+    root
+/// triple
+// trailing space 
+packet x
+{ // a // b
+@rightPad
+( ) i8i8 @calculatedFrom( ""x y"")//x
+, } MetaData
+u  { A
+    /// triple
+    u8x ,
+} options {
+    u8x = i64 _x  =""CRC32"" ; MetaDataX = u8 }
+")).
+Eval vm_compute in ("<<<M37>>>" ++ full (runes_of_ascii "options {
+packetx/// triple
+= 42; }
+    root packet falsey {@tag( 1 )
+crc { repeat	char[ 007 ] charz // 50% %s
+`it's` , repeat	u8
+    len `
+`
+    , crc trueish	, }	, match
+float as string_ {""x y"" :
+// " ++ [27880; 37322]%N ++ runes_of_ascii "
+//
+zchar , """ ++ [128512]%N ++ runes_of_ascii """
+    // " ++ [128512]%N ++ runes_of_ascii " emoji
+    : string_
+// trailing space 
+// @lengthOf(
+,""CRC32""  : options1
+, [""1"" // c
+] :
+crc
+    , ""packet"" // " ++ [27880; 37322]%N ++ runes_of_ascii "
+: options1 ,  [ 42
+, ""a	b""
+,
+    // trailing space 
+    """ ++ [233]%N ++ runes_of_ascii "t" ++ [233]%N ++ runes_of_ascii """ /// triple
+, ""abc""
+,0123456789, ""{,}""
+, // trailing space 
+00	,""" ++ [233]%N ++ runes_of_ascii "t" ++ [233]%N ++ runes_of_ascii """ // packet A { u8 x, }
+]:	asx },repeat  f64	charz
+, @tag( 10 ) repeat charz
+Logon , @lengthOf( u8x
+) @calculatedFrom( ""a\""b"" )
+    @rightPad // @lengthOf(
+(
+' '
+    ) u8 a1
+`u8 x,` ,	}
+packet	falsey  {
+    repeat
+char[] zchar, @tag( 255 )@calculatedFrom( ""`tick`""
+    )
+char[] asx `say ""hi""`
+    ,
+    u8  As `u8 x,` , // 50% %s
+zchar[00 ]	uint8x @lengthOf( // packet A { u8 x, }
+zchar ) , char[ 255  ]
+uint8x , Pad @lengthOf(
+    // packet A { u8 x, }
+    _x
+    )	`" ++ [233]%N ++ runes_of_ascii "` ,
+    _x,@rightPad (
+    ' ' ) uint16
+BodyLength/// triple
+, @lengthOf( int// " ++ [128512]%N ++ runes_of_ascii " emoji
+) metadata tag , int64	string_ `
+`
+, } root
+packet
+o {} options// packet A { u8 x, }
+{	}
+")).
+Eval vm_compute in ("<<<M40>>>" ++ full (runes_of_ascii "packet
+    len { // " ++ [27880; 37322]%N ++ runes_of_ascii "
+@leftPad( '0'
+    ) // trailing space 
+Logon @lengthOf( _x)
+`100% of %d`
+,char
+    rootA
+, @calculatedFrom( """ ++ [28040; 24687]%N ++ runes_of_ascii """ )
+@leftPad
+    (' ' ) // `tick` ""quote"" 'q'
+i8
+crc , msg_type
+@calculatedFrom( """"	)
+`
+`
+, // `tick` ""quote"" 'q'
+}	options//x
+{}
+options { u8x =true }
+")).
+Eval vm_compute in ("<<<M42>>>" ++ full (runes_of_ascii "
+root packet  x  {
+@rightPad
+( '\x00' ) repeat
+    uint32 crc , } options{
+Packet
+    // @lengthOf(
+    =char[] }	MetaData o
+    {}
+")).
+Eval vm_compute in ("<<<M43>>>" ++ full (runes_of_ascii "packet u {match x_y_z as
+leftPad
+    { 0123456789
+    :	x_y_z	,},@rightPad ()
+    u64 trueish ,	repeat u64 trueish
+`line1
+line2`	,@rightPad ( ) // a // b
+char[ 255
+    ]
+    _x
+`// not a comment`
+// packet A { u8 x, }
+// 50% %s
+,	zchar[7]leftPad ,match chars  as
+    //x
+    lengthOf {1
+    :o 42  : chars ,} // trailing space 
+,}
+")).
+Eval vm_compute in ("<<<M44>>>" ++ full (runes_of_ascii "MetaData BodyLength {} packet x_y_z
+{
+@lengthOf(  roots )
+    A { // " ++ [128512]%N ++ runes_of_ascii " emoji
+repeat
+    zchar[0123456789  ]
+    Z9_`a\`, },
+}
+    options // packet A { u8 x, }
+{ Pad =
+    ""x y"" ; // trailing space 
+trueish
+=
+true body =
+3 ; matchKey=
+true //x
+; i64_ =
+    char[] ; }packet Packet  {char[]
+// " ++ [128512]%N ++ runes_of_ascii " emoji
+// `tick` ""quote"" 'q'
+float@calculatedFrom( ""`tick`"" ) ,char[] charz @calculatedFrom( ""abc"" ) ,match As as
+    // packet A { u8 x, }
+    asx // @lengthOf(
+{ [ """ ++ [28040; 24687]%N ++ runes_of_ascii """, ""`tick`""
+, ""{,}"" ,
+""{,}"" , ""a	b""
+    // " ++ [27880; 37322]%N ++ runes_of_ascii "
+    , 1
+, ""\" ++ [233]%N ++ runes_of_ascii """	] :	rootA
+,
+    255:	asx 42
+    : a1 , 42 : x_y_z  """" :
+    msg_type
+,7 : f32a ,	}
+,  @leftPad
+( '0'
+) repeatCount crc `// not a comment`
+    ,
+@lengthOf(MetaDataX) float64 falsey@calculatedFrom( ""\" ++ [233]%N ++ runes_of_ascii """ ) `" ++ [233]%N ++ runes_of_ascii "` , }
 
+")).
+Eval vm_compute in ("<<<M46>>>" ++ full (runes_of_ascii "packet u8x  { @leftPad ( //	t
+'0'//x
+)
+    uint8x lengthOf
+    `line1
+line2`
+    // 50% %s
+    ,
+}
+packet msg_type{
+}MetaData u {
+}
 
 ")).
-Eval vm_compute in ("<<<M994>>>" ++ full (runes_of_ascii "// c ")).
+Eval vm_compute in ("<<<M51>>>" ++ full (runes_of_ascii "options {lengthOf // " ++ [128512]%N ++ runes_of_ascii " emoji
+=// `tick` ""quote"" 'q'
+true ; string_ =
+    ""a\\"" ;}
+root packet zchar
+{string_ // " ++ [27880; 37322]%N ++ runes_of_ascii "
+{ match
+//
+//x
+x as string_{
+    //	t
+    0: zchar  ,
+} ,
+    }
+    ,	@calculatedFrom(	""CRC32"" ) @tag( 42
+) repeat
+char[
+    4294967296 ] u `say ""hi""` ,
+    // 50% %s
+    @tag( 3 )  @leftPad ( ' ' ) @tag( // `tick` ""quote"" 'q'
+42	) match Header
+as A { 42 : Logon ,  } ,
+@tag(
+4294967296
+)i64_ `doc` ,} root packet
+x_y_z { @calculatedFrom( ""// no comment"" ) @leftPad ( ) @lengthOf( int)//	t
+u8x `" ++ [28040; 24687; 31867; 22411]%N ++ runes_of_ascii "`
+    ,
+    }
+")).
+Eval vm_compute in ("<<<M54>>>" ++ full (runes_of_ascii "// trailing space 
+packet
+stringy
+{	repeat char[]  roots , @leftPad
+    //x
+    (// c
+' '  )char T `// not a comment`
+    ,//
+}
+")).
+Eval vm_compute in ("<<<M58>>>" ++ full (runes_of_ascii "packet o { zchar[ 7 ] /// triple
+f32a@calculatedFrom( ""a\""b"")	, @lengthOf( pack
+)
+    options1 ,@calculatedFrom(""abc""
+)
+    Header , @lengthOf( Logon )zchar[4294967296
+    ] asx // packet A { u8 x, }
+@lengthOf(
+// a // b
+// packet A { u8 x, }
+u )
+`100% of %d`	, @leftPad (' ' // trailing space 
+)	@calculatedFrom( ""`tick`"" )
+uint16 x_y_z`doc` , @tag( 00 )zchar[ //	t
+1 ] // c
+u,@calculatedFrom(""a\""b"" ) //
+u8x uint8x,
+char[1 ]
+metadata , }
+")).
